@@ -118,7 +118,7 @@ func genC15(seed uint64, tier string) C15Cfg {
 	// than the expiry WITHOUT the collector running (no send), the sender then writes to each of those topics again,
 	// and to as many new ones; in the end everything is started. The sender's allowance is what it is: data
 	// of at most limit+1 topics may be there at any one time
-	if rv := prng.Derive(seed, "revive"); rv.Bool(0.17) {
+	if rv := prng.Derive(seed, "revive"); rv.Bool(0.17) && c.MaxTopics <= 8 { // (not with the production allowance of 10000 topics)
 		snd := uint16(1 + rv.Intn(3))
 		k := c.MaxTopics + 1 + rv.Intn(3)
 		var blk []C15Op
